@@ -75,7 +75,8 @@ def imtlgWeights (J : Mat α) (d : Vec α) (guard : α) : Option (Vec α) :=
   | some v =>
     if matVec G v = d then                 -- certificate: v = G⁻¹ d  (= pinv(G) d when G is invertible)
       let s := v.sum
-      if absV s < guard then some (zeros d.length) else some (v.map (· / s))
+      -- guard relative to the magnitude of `v` (code after the `fix:` commit)
+      if absV s ≤ guard * (v.map absV).sum then some (zeros d.length) else some (v.map (· / s))
     else none
 
 /-! ### ConFIG: `d` = row norms; unit rows `U`; `best = pinv(U) w`; for independent rows
